@@ -507,4 +507,125 @@ theorem individualToParty_eq_error (aff : Cand → Option Nat) (p : Dict Cand)
   · obtain ⟨cw, hcw, ha⟩ := h
     exact ⟨cw, hcw, fun s => by simp [mapParty, ha]⟩
 
+/-! ### GroupVotesByParty -/
+
+/-- a nested party dict as the list of its (party, candidate, votes) entries -/
+def flatGroups (G : List (PKey × Dict Cand)) : List (PKey × Cand × Rat) :=
+  G.flatMap (fun pd => pd.2.map (fun cv => (pd.1, cv.1, cv.2)))
+
+/-- the entry a candidate contributes (none when the mapper ignores it) -/
+def partyEntry (aff : Cand → Option Nat) (ind : Independents) (cw : Cand × Rat) : Option (PKey × Cand × Rat) :=
+  (mapKey aff ind cw.1).map (fun party => (party, cw.1, cw.2))
+
+/-- pure step of `groupByParty` -/
+def groupStep (aff : Cand → Option Nat) (ind : Independents) (agg : List (PKey × Dict Cand)) (cw : Cand × Rat) :
+    List (PKey × Dict Cand) :=
+  match mapKey aff ind cw.1 with
+  | some party => setNested agg party cw.1 cw.2
+  | none => agg
+
+theorem groupByParty_eq_ok (aff : Cand → Option Nat) (ind : Independents) (p : Dict Cand)
+    (h : ind = .error → ∀ cw ∈ p, (aff cw.1).isSome) :
+    groupByParty aff ind p = .ok (p.foldl (groupStep aff ind) []) := by
+  unfold groupByParty
+  apply foldlM_ok_of_step
+  intro s cw hcw
+  rw [mapParty_ok aff ind cw.1 (fun he => h he cw hcw)]
+  unfold groupStep
+  cases mapKey aff ind cw.1 <;> rfl
+
+theorem flatGroups_setNested (G : List (PKey × Dict Cand)) (party : PKey) (c : Cand) (v : Rat)
+    (hc : c ∉ (flatGroups G).map (·.2.1)) :
+    (flatGroups (setNested G party c v)).Perm ((party, c, v) :: flatGroups G) := by
+  induction G with
+  | nil => simp [setNested, flatGroups]
+  | cons e t ih =>
+    obtain ⟨k', d⟩ := e
+    have hsplit : flatGroups ((k', d) :: t) = d.map (fun cv => (k', cv.1, cv.2)) ++ flatGroups t := by
+      simp [flatGroups]
+    rw [hsplit, List.map_append, List.mem_append, not_or] at hc
+    unfold setNested
+    by_cases hk : k' = party
+    · subst hk
+      rw [if_pos rfl]
+      have hd : c ∉ dkeys d := by
+        intro hm
+        apply hc.1
+        obtain ⟨cv, hcv, rfl⟩ := List.mem_map.1 hm
+        exact List.mem_map.2 ⟨(k', cv.1, cv.2), List.mem_map.2 ⟨cv, hcv, rfl⟩, rfl⟩
+      rw [setTo_of_not_mem hd, hsplit]
+      have : flatGroups ((k', d ++ [(c, v)]) :: t)
+          = d.map (fun cv => (k', cv.1, cv.2)) ++ (k', c, v) :: flatGroups t := by
+        simp [flatGroups]
+      rw [this]
+      exact List.perm_middle
+    · rw [if_neg hk, hsplit]
+      have : flatGroups ((k', d) :: setNested t party c v)
+          = d.map (fun cv => (k', cv.1, cv.2)) ++ flatGroups (setNested t party c v) := by
+        simp [flatGroups]
+      rw [this]
+      exact ((ih hc.2).append_left _).trans List.perm_middle
+
+theorem dkeys_setNested (G : List (PKey × Dict Cand)) (party : PKey) (c : Cand) (v : Rat) :
+    dkeys (setNested G party c v) = if party ∈ dkeys G then dkeys G else dkeys G ++ [party] := by
+  induction G with
+  | nil => simp [setNested, dkeys]
+  | cons e t ih =>
+    obtain ⟨k', d⟩ := e
+    unfold setNested
+    by_cases h : k' = party
+    · subst h; simp [dkeys]
+    · rw [if_neg h]
+      have h' : ¬ party = k' := fun e => h e.symm
+      simp only [dkeys, List.map_cons, List.mem_cons, h', false_or] at ih ⊢
+      rw [ih]; split <;> rename_i hh <;> simp [hh]
+
+/-- grouping a dict of candidates: the groups hold exactly the kept candidates, each once, under its party -/
+theorem flatGroups_foldl (aff : Cand → Option Nat) (ind : Independents) (q : Dict Cand) (acc : List (PKey × Dict Cand))
+    (hq : (dkeys q).Nodup) (hdis : ∀ c ∈ dkeys q, c ∉ (flatGroups acc).map (·.2.1)) :
+    (flatGroups (q.foldl (groupStep aff ind) acc)).Perm (flatGroups acc ++ q.filterMap (partyEntry aff ind)) := by
+  induction q generalizing acc with
+  | nil => simp
+  | cons cw t ih =>
+    simp only [dkeys, List.map_cons, List.nodup_cons] at hq
+    rw [List.foldl_cons]
+    have hc : cw.1 ∉ (flatGroups acc).map (·.2.1) := hdis cw.1 (by simp [dkeys])
+    unfold groupStep partyEntry
+    cases hk : mapKey aff ind cw.1 with
+    | none =>
+      simp only [List.filterMap_cons, hk, Option.map_none]
+      exact ih acc hq.2 (fun c hcm => hdis c (by simp only [dkeys, List.map_cons, List.mem_cons]; exact Or.inr hcm))
+    | some party =>
+      simp only [List.filterMap_cons, hk, Option.map_some]
+      have hperm := flatGroups_setNested acc party cw.1 cw.2 hc
+      have hdis' : ∀ c ∈ dkeys t, c ∉ (flatGroups (setNested acc party cw.1 cw.2)).map (·.2.1) := by
+        intro c hcm hm
+        have := (hperm.map (·.2.1)).mem_iff.1 hm
+        simp only [List.map_cons, List.mem_cons] at this
+        rcases this with rfl | h
+        · exact hq.1 hcm
+        · exact hdis c (by simp only [dkeys, List.map_cons, List.mem_cons]; exact Or.inr hcm) h
+      refine (ih _ hq.2 hdis').trans ?_
+      have := hperm.append_right (t.filterMap (fun cw => (mapKey aff ind cw.1).map (fun party => (party, cw.1, cw.2))))
+      exact this.trans (List.perm_middle.symm)
+
+theorem nodup_dkeys_groupFold (aff : Cand → Option Nat) (ind : Independents) (q : Dict Cand)
+    (acc : List (PKey × Dict Cand)) (h : (dkeys acc).Nodup) : (dkeys (q.foldl (groupStep aff ind) acc)).Nodup := by
+  induction q generalizing acc with
+  | nil => exact h
+  | cons cw t ih =>
+    rw [List.foldl_cons]
+    apply ih
+    unfold groupStep
+    cases mapKey aff ind cw.1 with
+    | none => exact h
+    | some party =>
+      simp only
+      rw [dkeys_setNested]
+      split
+      · exact h
+      · rename_i hk
+        rw [List.nodup_append]
+        exact ⟨h, by simp, by intro a ha b hb; simp at hb; subst hb; intro e'; subst e'; exact hk ha⟩
+
 end VL.Convert
